@@ -104,7 +104,19 @@ def check(run):
     for h in hostile:
         for d in (DIALECTS if run.tier == "thorough" else run.rng.sample(DIALECTS, 4)):
             cases.append({"dialect": d, "sql": h, "seed": run.rng.randrange(1 << 30), "mutants": 6, "all_truncations": True})
-    res = run_bin_parallel("drive", ["stress"], cases, timeout=1500)
+    res = run_bin_parallel("drive", ["stress"], cases, timeout=1500, on_fail="mark", case_timeout=60 if run.tier == "quick" else 150)
+    for c, r in zip(cases, res):
+        if r["status"] in ("hang", "crash"):
+            cur = {}
+            try:
+                cur = json.loads(r.get("current") or "{}")
+            except ValueError:
+                pass
+            viol += 1
+            if viol <= 8:
+                run.violation({"what": "parsing does not return" if r["status"] == "hang" else "the process died while parsing (stack overflow / abort)",
+                               "dialect": c["dialect"], "input": cur.get("variant", c["sql"]), "options": {k: cur.get(k) for k in ("unescape", "trailing_commas", "limit")},
+                               "observed": {k: r.get(k) for k in ("status", "harness", "seconds", "stderr")}, "derived_from": c["sql"], "seed": c["seed"]})
     runs = sum(r.get("runs", 0) for r in res)
     variants = sum(r.get("variants", 0) for r in res)
     worst = max((r.get("max_steps_per_char", 0), r.get("worst", "")) for r in res)
@@ -181,5 +193,7 @@ def replay(path):
     r = json.load(open(path))
     print(json.dumps(r, indent=1, ensure_ascii=False))
     if isinstance(r.get("input"), str) and r.get("dialect") and "template" not in r:
-        print("now:", run_bin("drive", ["stress"], [{"dialect": r["dialect"], "sql": r["input"], "mutants": 0}])[0])
+        now = run_bin_parallel("drive", ["stress"], [{"dialect": r["dialect"], "sql": r["input"], "mutants": 0}], on_fail="mark", case_timeout=30)[0]
+        print("now:", now)
+        return 0 if now.get("status") == "ok" else 1
     return 0
